@@ -18,18 +18,56 @@ Theorem C01_delivered_identical : forall c rs st, reach c rs st -> forall r d,
 Proof. exact delivered_identical. Qed.
 Print Assumptions C01_delivered_identical.
 
-(* Per media and format the received packets are an order-preserving subsequence of the written ones
-   (no reordering, no duplicate, nothing invented), on every transport. *)
-Theorem C01_delivered_is_subsequence : forall c rs st, reach c rs st -> forall r m f s,
-  In r (s_readers st) -> ssrc_of c m f = Some s ->
-  Subseq (deliv_mf r m f) (map (fun p => set_ssrc p s) (written_mf (s_written st) m f)).
-Proof. exact delivered_is_subsequence. Qed.
-Print Assumptions C01_delivered_is_subsequence.
+(* At most once: no written packet reaches the same reader twice, on any transport. *)
+Theorem C01_delivered_at_most_once : forall c rs st, reach c rs st -> forall r,
+  In r (s_readers st) -> NoDup (didxs (r_deliv r)).
+Proof. exact delivered_at_most_once. Qed.
+Print Assumptions C01_delivered_at_most_once.
 
-Theorem C01_delivered_in_order_once : forall c rs st, reach c rs st -> forall r m f,
-  In r (s_readers st) -> sinc (didxs (filter (same_mf m f) (r_deliv r))).
-Proof. exact delivered_in_order_once. Qed.
-Print Assumptions C01_delivered_in_order_once.
+(* FINDING (class tcp-reorder-push-after-close).  "In the order written" is FALSE of the code as it is:
+   destroyWriter closes the asyncprocessor before it sets writer = nil; RingBuffer.Close clears the slots
+   but keeps readIndex/writeIndex; packets pushed in that window are accepted and run by the consumer
+   starting at the stale read index.  Witness: capacity 4, two packets queued at Close, four pushed after
+   it: the TCP reader receives write indices 4, 5, 2, 3. *)
+Theorem C01_delivered_in_order_refuted :
+  exists c rs steps st r m f,
+    readers_ok rs /\ exec c (init rs) steps = Some st /\ In r (s_readers st) /\ r_tcp r = true /\
+    didxs (filter (same_mf m f) (r_deliv r)) = [4; 5; 2; 3] /\
+    ~ sinc (didxs (filter (same_mf m f) (r_deliv r))).
+Proof. exact delivered_in_order_refuted. Qed.
+Print Assumptions C01_delivered_in_order_refuted.
+
+Theorem C01_delivered_is_subsequence_refuted :
+  exists c rs steps st r m f s,
+    readers_ok rs /\ exec c (init rs) steps = Some st /\ In r (s_readers st) /\ ssrc_of c m f = Some s /\
+    ~ Subseq (deliv_mf r m f) (map (fun p => set_ssrc p s) (written_mf (s_written st) m f)).
+Proof. exact delivered_is_subsequence_refuted. Qed.
+Print Assumptions C01_delivered_is_subsequence_refuted.
+
+(* What does hold (strongest form): per media and format the received packets are an order-preserving
+   subsequence of the written ones
+     - for every UDP reader, always (the receiver's in-order filter);
+     - for every TCP reader, among the packets that were pushed while its writer was open
+       ([ordered_part]: deliveries whose ghost flag d_late is false).
+   Missing for the full statement: the packets pushed between Close() and writer = nil.  Such a writer
+   state exists only while a PAUSE / TEARDOWN / close of that very reader is being processed
+   (C01_closed_writer_only_when_stopping), and a TCP reader that is never asked to stop receives
+   everything in order (C01_tcp_complete). *)
+Theorem C01_delivered_is_subsequence_partial : forall c rs st, reach c rs st -> forall r m f s,
+  In r (s_readers st) -> ssrc_of c m f = Some s ->
+  Subseq (deliv_mf_ord r m f) (map (fun p => set_ssrc p s) (written_mf (s_written st) m f)).
+Proof. exact delivered_is_subsequence_partial. Qed.
+Print Assumptions C01_delivered_is_subsequence_partial.
+
+Theorem C01_delivered_in_order_partial : forall c rs st, reach c rs st -> forall r m f,
+  In r (s_readers st) -> sinc (didxs (filter (same_mf m f) (ordered_part r))).
+Proof. exact delivered_in_order_partial. Qed.
+Print Assumptions C01_delivered_in_order_partial.
+
+Theorem C01_closed_writer_only_when_stopping : forall c rs st, reach c rs st -> forall r b,
+  In r (s_readers st) -> r_w r = WClosed b -> r_ph r = PhStopReq.
+Proof. exact closed_writer_only_when_stopping. Qed.
+Print Assumptions C01_closed_writer_only_when_stopping.
 
 Theorem C01_delivered_only_known_formats : forall c rs st, reach c rs st -> forall r m f,
   In r (s_readers st) -> ssrc_of c m f = None -> deliv_mf r m f = [].
@@ -50,17 +88,18 @@ Theorem C01_announced_ssrc : forall c rs st, reach c rs st -> forall r d m s,
 Proof. exact announced_ssrc. Qed.
 Print Assumptions C01_announced_ssrc.
 
-(* Over TCP all formats of all medias arrive in the one global order of writing. *)
-Theorem C01_tcp_global_order : forall c rs st, reach c rs st -> forall r,
-  In r (s_readers st) -> r_tcp r = true -> sinc (didxs (r_deliv r)).
-Proof. exact tcp_global_order. Qed.
-Print Assumptions C01_tcp_global_order.
+(* Over TCP all formats of all medias arrive in the one global order of writing (same restriction). *)
+Theorem C01_tcp_global_order_partial : forall c rs st, reach c rs st -> forall r,
+  In r (s_readers st) -> r_tcp r = true -> sinc (didxs (nl_d (r_deliv r))).
+Proof. exact tcp_global_order_partial. Qed.
+Print Assumptions C01_tcp_global_order_partial.
 
 (* Conservation: the packets a reader's queue accepted are exactly those delivered, those still in the
    transport or in the queue, and those explicitly discarded. *)
 Theorem C01_conservation : forall c rs st, reach c rs st -> forall r,
   In r (s_readers st) ->
-  Permutation (r_hist r) (didxs (r_deliv r) ++ r_lost r ++ idxs (r_wire r) ++ idxs (r_queue r)).
+  Permutation (r_hist r)
+    (didxs (r_deliv r) ++ r_lost r ++ idxs (r_wire r) ++ idxs (r_queue r) ++ idxs (ritems (r_ring r))).
 Proof. exact conservation. Qed.
 Print Assumptions C01_conservation.
 
@@ -92,12 +131,14 @@ Proof. exact tcp_loss_only_when_stopping. Qed.
 Print Assumptions C01_tcp_loss_only_when_stopping.
 
 (* TCP completeness: in every run in which TCP reader k is never asked to stop, nothing its queue
-   accepted is missing: it has been delivered or is still in flight ... *)
+   accepted is missing: it has been delivered or is still in flight, and everything delivered arrived in
+   the one global order of writing ... *)
 Theorem C01_tcp_complete : forall c rs steps st k su,
   readers_ok rs -> nnth k rs = Some (new_reader true su) ->
   exec c (init rs) steps = Some st ->
   Forall (fun s => s <> SCtl CStopReq k) steps ->
   exists r, nnth k (s_readers st) = Some r /\ r_tcp r = true /\ r_lost r = [] /\
+    sinc (didxs (r_deliv r)) /\
     forall idx, In idx (r_hist r) ->
       In idx (didxs (r_deliv r)) \/ In idx (idxs (r_wire r)) \/ In idx (idxs (r_queue r)).
 Proof. exact tcp_complete. Qed.
